@@ -53,7 +53,8 @@ class Gen:
 		if r < 0.89:
 			return '...'
 		if r < 0.91:
-			return "'''l1\n l2'''"
+			# multi-line tokens: closing quote right of, at, and left of the opening column
+			return self.rng.choice(["'''l1\n l2'''", "'''l1\n'''", '"""a\n\n  b\n"""', "'''x\n\t\t\t\t\t\t\t\tfar'''"])
 		return self.name()
 
 	def sep(self, d: int) -> str:
@@ -181,7 +182,7 @@ class Gen:
 		if r < 0.88:
 			return f'yield {e()}'
 		if r < 0.93:
-			return self.rng.choice(['# comment', '# コメント あ', '#', '# a\tb'])
+			return self.rng.choice(['# comment', '# コメント あ', '#', '# a\tb', '# trailing blanks  ', '#\t', '# x \t '])
 		if r < 0.96:
 			return e()
 		return self.rng.choice(["'''doc\n\tstring'''", '"""one"""'])
